@@ -3,7 +3,7 @@
     and the HTTP client return by the deadline of the context they are given — the models
     below use exactly the deadlines the code passes. *)
 From Coq Require Import List ZArith Bool.
-From TR Require Import Eng.Engine Eng.Timed Spec.C08 Pol.PublicIp Proofs.EngTimed Proofs.EngFuel Proofs.PolProofs Generated.Consts.
+From TR Require Import Eng.Engine Eng.Timed Spec.C08 Pol.PublicIp Proofs.EngTimed Proofs.EngFuel Proofs.PolProofs Lib.Bytes Drv.Drivers Drv.Handshake Proofs.SackTimed Generated.Consts.
 Import ListNotations.
 Open Scope Z_scope.
 
@@ -48,6 +48,22 @@ Print Assumptions C08_parallel_cancel_prompt.
 Theorem C08_sender_exit_prompt : forall p c, 0 <= c -> 0 <= tp_delay p -> 0 <= count p -> sender_exit p c <= c + tp_delay p.
 Proof. exact sender_exit_bound. Qed.
 Print Assumptions C08_sender_exit_prompt.
+
+(** SACK path.  The handshake reader sets ONE deadline (500 ms) and is bounded by it for EVERY packet stream
+    (unrelated SYN-ACKs, ICMP, garbage at any rate) ... *)
+Theorem C08_sack_handshake_read_bounded : forall c D frames,
+  0 <= D -> Forall (fun x => 0 <= fst x) frames -> 0 <= snd (read_handshake_timed c D frames) <= D.
+Proof. exact handshake_read_bounded. Qed.
+Print Assumptions C08_sack_handshake_read_bounded.
+
+(** ... and the whole SACK run (dial under the run context — oracle: returns by the context deadline M —, handshake
+    read, parallel engine under the same context) ends before M + 500 ms + one poll interval *)
+Theorem C08_sack_total_bounded : forall M dial hs p script total,
+  0 <= dial <= M -> 0 <= hs <= handshake_read_timeout ->
+  sack_total M dial hs p script = Some total ->
+  total < M + handshake_read_timeout + tp_poll p.
+Proof. exact sack_total_bounded. Qed.
+Print Assumptions C08_sack_total_bounded.
 
 (** public-IP discovery, ANY per-provider behaviour (hang before/after headers, slow body, errors):
     at most providers x per-checker timeout; each provider ends by its own deadline *)
